@@ -41,7 +41,8 @@ def c12_generate(spec, seed, tier):
     return ops
 
 
-def c12_run_replicas(spec, ops, seed, tier, phase, shared, counters):
+def c12_run_replicas(spec, ops, seed, tier, phase, shared, counters,
+                     seed_before=False):
     """Execute the log on all 8 replicas; returns list of per-replica output
     records and the list of ops actually executed by everyone."""
     rng = core.stream(seed, "encoding")
@@ -54,6 +55,10 @@ def c12_run_replicas(spec, ops, seed, tier, phase, shared, counters):
     usable = None
     for mt in MODE_TRIPLES:
         modes = {"fully_obs": mt[0], "flat_actions": mt[1], "flat_obs": mt[2]}
+        if phase == "seeded" and seed_before:
+            # the user seeds first and builds the environment afterwards
+            np.random.seed(np_seed)
+            counters.hit("probe.seeded_before_construction")
         sim = EnvSim(spec, modes, [], seed, tier,
                      scripted=(phase == "scripted"), scenario=scenario,
                      cfg=cfg, record=True)
@@ -61,8 +66,10 @@ def c12_run_replicas(spec, ops, seed, tier, phase, shared, counters):
             if usable is None:
                 # decide once (needs both tables): build a throw-away param
                 # table from this scenario
+                st = np.random.get_state()
                 usable = _expressible(sim, ops)
-            if phase == "seeded":
+                np.random.set_state(st)
+            if phase == "seeded" and not seed_before:
                 np.random.seed(np_seed)
             encs = envsim.FLAT_ENCODINGS if mt[1] else envsim.PARAM_ENCODINGS
             for op in usable:
@@ -140,7 +147,8 @@ def c12_run_one(prop, tier, root, idx, extra):
                     "trace": {"spec": spec, "seed": seed, "ops": []}})
         return res
     shared = cfgr.random() < 0.5
-    trace = {"spec": spec, "seed": seed, "ops": ops, "shared": shared}
+    trace = {"spec": spec, "seed": seed, "ops": ops, "shared": shared,
+             "seed_before": cfgr.random() < 0.5}
     return c12_execute(trace, tier, res)
 
 
@@ -152,7 +160,8 @@ def c12_execute(trace, tier, res):
         for phase in ("scripted", "seeded"):
             outs, usable = c12_run_replicas(
                 trace["spec"], trace["ops"], trace["seed"], tier, phase,
-                trace.get("shared", False), counters)
+                trace.get("shared", False), counters,
+                trace.get("seed_before", False))
             res["ops"] += len(usable) * 8
             res["steps"] += sum(1 for o in usable if o["op"] == "step") * 8
             res["progress"] = outs[0][2]
@@ -290,6 +299,11 @@ class World:
             if not sim.table.flat:
                 return ("mask", None)
             return ("mask", env.get_action_mask().tobytes())
+        if kind == "advert":
+            return ("advert", int(env.get_minimum_hops()),
+                    float(env.get_score_upper_bound()),
+                    bool(env.goal_reached()),
+                    repr(env.scenario.get_description()))
         raise ValueError(kind)
 
 
@@ -451,7 +465,8 @@ def c19_generate(seed, tier):
             continue
         k = rng.choice(constructed)
         kind = rng.choice(["step"] * 10 + ["gstep", "gstep", "reset",
-                                          "readable", "roundtrip", "mask"])
+                                          "readable", "roundtrip", "mask",
+                                          "advert"])
         ops.append({"op": kind, "env": k, "_fill": True})
     while pending:
         k = pending.pop(0)
